@@ -16,6 +16,7 @@ import RubatoProofs.Fft.Control
 import RubatoProofs.Props.C16
 import RubatoProofs.Lemmas.FormulaTie
 import RubatoProofs.Lemmas.DivBridge
+import RubatoProofs.Props.C12
 
 set_option linter.unusedSectionVars false
 set_option linter.unusedVariables false
@@ -161,5 +162,124 @@ theorem fft_getters_are_the_source_formulas {σ υ : Type} (s : FState σ υ) :
               (Formulas.fftIn_omax_max_stored_frames (ρ := ℚ) s.fftIn) s.chunkIn) s.fftIn) s.fftOut) := by
   rw [← DivBridge.ofNum_rat_eq_exact]
   exact ⟨(FormulaTie.fft_getters ℚ s).1, (FormulaTie.fft_getters ℚ s).2.1, (FormulaTie.fft_getters ℚ s).2.2.1⟩
+
+end Rubato.C04
+
+/-! ### Session level, fixed-input types: the advertised bounds hold after ANY history
+
+`fixedIn_getter_bounds` above is a statement about one state and takes the facts it needs as hypotheses (chunk size at
+most the construction-time size, both ratios non-negative and at most `orig·max`).  The theorems below discharge those
+hypotheses for every state a fixed-input resampler can reach from its constructor: any sequence of processing calls
+(successful, rejected, crashed), ratio changes (absolute, relative, stepped, ramped, accepted or rejected), chunk-size
+changes and resets. -/
+namespace Rubato.C04
+open Rubato
+
+/-- one operation keeps `chunk ≤ maxChunk` [law-free] -/
+theorem step_chunk_le {ρ σ : Type} [RNum ρ] [SNum ρ σ] (s : AState ρ σ) (h : s.chunk ≤ s.maxChunk) (op : AOp ρ σ) :
+    (s.step op).chunk ≤ (s.step op).maxChunk := by
+  cases op with
+  | proc a =>
+    have hf := process_frame s a
+    show ((s.process a).1).chunk ≤ ((s.process a).1).maxChunk
+    rw [hf.chunk, hf.maxChunk]; exact h
+  | ratio r ramp =>
+    show ((s.setRatio r ramp).1).chunk ≤ ((s.setRatio r ramp).1).maxChunk
+    by_cases hr : ratioInRange r s.orig s.maxRel = true
+    · have ha := C12.setRatio_accepted s r ramp hr
+      simp only [] at ha
+      obtain ⟨-, -, -, -, hc, hm, -⟩ := ha
+      rw [hc, hm]; exact h
+    · rw [C12.setRatio_rejected_unchanged s r ramp (fun hok => hr ((C12.setRatio_ok_iff s r ramp).1 hok))]
+      exact h
+  | rel x ramp =>
+    show ((s.setRatio (s.orig * x) ramp).1).chunk ≤ ((s.setRatio (s.orig * x) ramp).1).maxChunk
+    by_cases hr : ratioInRange (s.orig * x) s.orig s.maxRel = true
+    · have ha := C12.setRatio_accepted s (s.orig * x) ramp hr
+      simp only [] at ha
+      obtain ⟨-, -, -, -, hc, hm, -⟩ := ha
+      rw [hc, hm]; exact h
+    · rw [C12.setRatio_rejected_unchanged s _ ramp (fun hok => hr ((C12.setRatio_ok_iff s _ ramp).1 hok))]
+      exact h
+  | chunk n =>
+    show ((s.setChunk n).1).chunk ≤ ((s.setChunk n).1).maxChunk
+    unfold AState.setChunk
+    cases s.kind
+    · exact h
+    · exact h
+    · simp only []
+      split
+      · exact h
+      · next hn => simp at hn; exact hn.1
+    · simp only []
+      split
+      · exact h
+      · next hn => simp at hn; exact hn.1
+  | reset =>
+    show (s.reset).chunk ≤ (s.reset).maxChunk
+    unfold AState.reset
+    cases s.kind
+    · exact h
+    · exact h
+    · exact Nat.le_refl _
+    · exact Nat.le_refl _
+
+/-- … hence any history does [law-free] -/
+theorem chunk_le_after_any_history {ρ σ : Type} [RNum ρ] [SNum ρ σ] (s : AState ρ σ) (h : s.chunk ≤ s.maxChunk)
+    (ops : List (AOp ρ σ)) : (s.run ops).chunk ≤ (s.run ops).maxChunk := by
+  induction ops generalizing s with
+  | nil => exact h
+  | cons op ops ih => exact ih (s.step op) (step_chunk_le s h op)
+
+/-- the constructor starts every resampler at its maximum chunk size -/
+theorem init_chunk_eq {ρ σ : Type} [RNum ρ] [SNum ρ σ] (kind : AKind) (ratio maxRel : ρ) (deg : Degree)
+    (sint : SincInterp) (ip : Interp σ) (chunk nch : Nat) (s0 : AState ρ σ)
+    (h : AState.init kind ratio maxRel deg sint ip chunk nch = .ok s0) : s0.chunk = s0.maxChunk := by
+  unfold AState.init at h
+  split at h
+  · simp at h
+  · simp only [] at h
+    split at h
+    · injection h with h; subst h; rfl
+    · injection h with h; subst h; rfl
+
+/-- every operation keeps the kind [law-free] -/
+theorem kind_after_any_history {ρ σ : Type} [RNum ρ] [SNum ρ σ] (kind : AKind) (ratio maxRel : ρ) (deg : Degree)
+    (sint : SincInterp) (ip : Interp σ) (chunk nch : Nat) (s0 : AState ρ σ)
+    (h : AState.init kind ratio maxRel deg sint ip chunk nch = .ok s0) (ops : List (AOp ρ σ)) :
+    (s0.run ops).kind = s0.kind := by
+  have hfix := C10.reset_init kind ratio maxRel deg sint ip chunk nch s0 h
+  have h0 := C10.init_sameShape kind ratio maxRel deg sint ip chunk nch s0 h
+  suffices ∀ s, SameShape s s0 → SameShape (s.run ops) s0 from (this s0 h0).kind
+  induction ops with
+  | nil => intro s hs; exact hs
+  | cons op ops ih => intro s hs; exact ih _ (C10.step_sameShape s s0 hs hfix op)
+
+/-- **C04, fixed-input types, session level** [exact].  A `FastFixedIn`/`SincFixedIn` built with ratio `> 0` and
+`max_resample_ratio_relative ≥ 1`: after ANY history, `input_frames_next() ≤ input_frames_max()` and
+`output_frames_next() ≤ output_frames_max()` — in the middle of a ramp, after a shrunken chunk size, after rejected
+calls, after resets. -/
+theorem fixedIn_bounds_after_any_history (kind : AKind) (ratio maxRel : ℚ) (deg : Degree) (sint : SincInterp)
+    (ip : Interp ℚ) (chunk nch : Nat) (s0 : AState ℚ ℚ)
+    (h : AState.init kind ratio maxRel deg sint ip chunk nch = .ok s0) (hk : s0.kind.isFixedIn = true)
+    (ho : 0 < s0.orig) (hm : 1 ≤ s0.maxRel) (ops : List (AOp ℚ ℚ)) :
+    (s0.run ops).inputFramesNext ≤ (s0.run ops).inputFramesMax ∧
+    (s0.run ops).outputFramesNext ≤ (s0.run ops).outputFramesMax := by
+  have hkind := kind_after_any_history kind ratio maxRel deg sint ip chunk nch s0 h ops
+  have hc := chunk_le_after_any_history s0 (le_of_eq (init_chunk_eq kind ratio maxRel deg sint ip chunk nch s0 h)) ops
+  obtain ⟨eo, em, -⟩ := C12.ratios_accepted_after_any_history s0
+    (C12.init_ratiosOK kind ratio maxRel deg sint ip chunk nch s0 h) ops
+  obtain ⟨⟨l1, u1⟩, ⟨l2, u2⟩⟩ := C12.ratios_in_documented_interval kind ratio maxRel deg sint ip chunk nch s0 h ho hm ops
+  have hpos : 0 ≤ s0.orig / s0.maxRel := le_of_lt (div_pos ho (by linarith))
+  refine fixedIn_getter_bounds (by rw [hkind]; exact hk) hc (le_trans hpos l1) (le_trans hpos l2) ?_ ?_
+  · rw [eo, em]; exact u1
+  · rw [eo, em]; exact u2
+
+/-- non-vacuity: the constructor state of `OddLength.d18_init` (`SincFixedIn`, ratio 4) meets every hypothesis -/
+example (a : CallArgs ℚ) :
+    let s := OddLength.d18S0.run [.ratio 4 true, .chunk 3, .proc a, .ratio 9 false, .reset, .chunk 8]
+    s.inputFramesNext ≤ s.inputFramesMax ∧ s.outputFramesNext ≤ s.outputFramesMax :=
+  fixedIn_bounds_after_any_history _ _ _ _ _ _ _ _ OddLength.d18S0 OddLength.d18_init (by rfl)
+    (by norm_num [OddLength.d18S0, OddLength.d18State]) (by norm_num [OddLength.d18S0, OddLength.d18State]) _
 
 end Rubato.C04
